@@ -166,7 +166,117 @@ def oracle_job(job):
     return {"results": out}
 
 
+LIST_SRC = '''
+@dataclass
+class L:
+    ints: list[int] = field(default_factory=list, metadata={"type": "Element", "tokens": True})
+    names: list[str] = field(default_factory=list, metadata={"type": "Element", "tokens": True})
+    rows: list[list[float]] = field(default_factory=list, metadata={"type": "Element", "tokens": True})
+    flags: list[bool] = field(default_factory=list, metadata={"type": "Attribute", "tokens": True})
+    ids: list[int] = field(default_factory=list, metadata={"type": "Attribute", "tokens": True})
+'''
+
+
+def list_ws_job(job):
+    """XSD list values: the items are separated by any run of whitespace (space, tab, line feed, carriage return); the
+    second document replaces every single space of the rendered lists by such a run (character references in
+    attribute values, where the XML parser would normalise literal tabs and line feeds)"""
+    from xsdata.formats.dataclass.serializers import XmlSerializer
+    model = IP.Model(IP.full_source(LIST_SRC), "L")
+    info = {"id": job["id"], "seed": job["seed"], "model": job["model"], "source": model.src,
+            "universe": model.ex.universe_term(), "nodefault": model.nodefault_term(), "root": cN(model.ex.cid[model.root])}
+    r = random.Random(job["seed"])
+    cases = []
+    L = model.root
+    for _ in range(job.get("n", 10)):
+        def ints():
+            return [r.choice([0, 1, -7, 12345]) for _ in range(r.choice([0, 1, 2, 3, 5]))]
+        obj = L(ints=ints(), names=[r.choice(["a", "b-c", "x1", "\u00e9"]) for _ in range(r.choice([0, 1, 2, 4]))],
+                rows=[[r.choice([1.5, -2.0, 0.25]) for _ in range(r.choice([1, 2, 3]))] for _ in range(r.choice([0, 1, 2]))],
+                flags=[r.random() < 0.5 for _ in range(r.choice([0, 1, 2, 3]))], ids=ints())
+        xml = XmlSerializer(context=model.ctx).render(obj)
+        st = R.struct_of(LET.fromstring(xml.encode()), {})
+
+        def sep():
+            return r.choice(["\t", "\n", "  ", " \n\t ", "\r\n", "\t\t", " "])
+        for n in R.walk(st):
+            if n["text"] and " " in n["text"]:
+                n["text"] = r.choice(["", "\n", "\t"]) + "".join(sep() if ch == " " else ch for ch in n["text"]) + r.choice(["", " ", "\n"])
+            n["attrs"] = [[k, "".join(sep() if ch == " " else ch for ch in v)] for k, v in n["attrs"]]
+        d1 = R.print_doc(r, st).encode()
+        for h, what in ((XmlEventHandler, None), (LxmlEventHandler, "lxml")):
+            cases.append(pair(model, info, (True, False, False), "list_ws", xml.encode(), d1, what=what, handler=h))
+    info["conv"] = model.ex.rec.table_term()
+    model.close()
+    return dict(info, cases=cases)
+
+
+def xinclude_job(job):
+    """splitting the document with XInclude: child elements moved into files of their own and included by href (the
+    same file included several times when the children are equal); both handlers, equal to the unsplit document"""
+    import shutil
+    import tempfile
+    import impl_binding_lib as B
+    from xsdata.formats.dataclass.parsers import XmlParser
+    from xsdata.formats.dataclass.parsers.config import ParserConfig
+    model = IP.Model(IP.full_source(R.ENC_SRC + '''
+@dataclass
+class W:
+    b: Optional[str] = field(default=None, metadata={"type": "Attribute"})
+    item: list[T] = field(default_factory=list, metadata={"type": "Element", "name": "T"})
+'''), "W")
+    r = random.Random(job["seed"])
+    out = []
+    tmpd = tempfile.mkdtemp(prefix="c09-xi-")
+    try:
+        for k in range(job.get("n", 8)):
+            def sub():
+                return '<T a="%s">%s</T>' % (r.choice(["1", "v", "same"]), "".join("<t>%s</t>" % r.choice(["x", "y z", "\u00e9"])
+                                                                                     for _ in range(r.choice([1, 2, 3]))))
+            pool = [sub() for _ in range(r.choice([1, 2, 3]))]
+            items = [r.choice(pool) for _ in range(r.choice([2, 3, 4, 5]))]
+            if k == 0:
+                items = [pool[0], pool[0], '<T a="other"><t>o</t></T>', pool[0]]
+            plain = '<W b="v">' + "".join(items) + "</W>"
+            d = os.path.join(tmpd, "d%d" % k)
+            os.mkdir(d)
+            files = {}
+            body = []
+            for i in items:
+                if r.random() < 0.8 or k == 0:
+                    if i not in files:
+                        files[i] = "inc%d.xml" % len(files)
+                        with open(os.path.join(d, files[i]), "w", encoding="utf-8") as f:
+                            f.write("<?xml version='1.0' encoding='UTF-8'?>" + i)
+                    body.append('<xi:include href="%s"/>' % files[i])
+                else:
+                    body.append(i)
+            doc = '<W xmlns:xi="http://www.w3.org/2001/XInclude" b="v">' + "".join(body) + "</W>"
+            main = os.path.join(d, "main.xml")
+            with open(main, "w", encoding="utf-8") as f:
+                f.write(doc)
+            ref = XmlParser(context=model.ctx).from_string(plain, model.root)
+            for hname, h in (("native", XmlEventHandler), ("lxml", LxmlEventHandler)):
+                for sname, fn in (("strpath", lambda: XmlParser(context=model.ctx, handler=h, config=ParserConfig(process_xinclude=True)).parse(main, model.root)),
+                                  ("bytes+base_url", lambda: XmlParser(context=model.ctx, handler=h, config=ParserConfig(process_xinclude=True, base_url=main)).from_bytes(doc.encode(), model.root))):
+                    try:
+                        df = B.eq(ref, fn())
+                        why = None if df is None else "differs at " + df
+                    except Exception as e:  # noqa
+                        why = type(e).__name__ + ": " + str(e)[:150]
+                    out.append({"handler": hname, "source": sname, "why": why, "doc": doc[:400], "expected": repr(ref)[:200],
+                                "repeated_href": len(files) < sum(1 for b in body if b.startswith("<xi"))})
+    finally:
+        shutil.rmtree(tmpd, ignore_errors=True)
+    model.close()
+    return {"id": job["id"], "seed": job["seed"], "model": job["model"], "cases": [], "xinclude": out}
+
+
 def run_job(job):
+    if "list_ws" in job.get("model", {}):
+        return list_ws_job(job)
+    if "xinclude" in job.get("model", {}):
+        return xinclude_job(job)
     if job.get("oracle"):
         try:
             return oracle_job(job)
